@@ -8,7 +8,7 @@
    nondeterminism).  [reachable fixed s0 h s]: s is a possible state after the history h. *)
 From Coq Require Import NArith ZArith List Bool.
 From Coq Require Import Permutation.
-From C30 Require Import Model ModelSpec ProofsArith ProofsRefute ProofsStep ProofsOrder ProofsSorted.
+From C30 Require Import Model ModelSpec ProofsArith ProofsRefute ProofsStep ProofsOrder ProofsSorted ProofsReserved ProofsExact.
 Import ListNotations.
 Local Open Scope Z_scope.
 
@@ -57,11 +57,13 @@ Qed.
 Print Assumptions C30_invariant.
 
 (* the maxima: numIn <= maxIn and numOut <= maxOut in every reachable state of a history none of
-   whose operations lies in the guard of the known finding unreserve-over-limit
-   (ModelSpec.guard_unreserve: outside reserved-only mode, removeReservedPeers whose first peer is
-   reserved, connected and whose direction is full; or setReservedPeer that un-reserves some peer
-   and either reserves a new one first (the allocSlots of that phase may connect the very peer
-   that is un-reserved afterwards) or un-reserves a peer that is connected in a full direction) *)
+   whose operations lies in the guard of the known finding unreserve-over-limit.  The guard
+   (ModelSpec.guard_unreserve s k o) says: outside reserved-only mode, at the moment the
+   un-reservation happens the peer being un-reserved is reserved, connected, and the slots of its
+   direction are all taken — for removeReservedPeers that is the start of the call and its first
+   peer; for setReservedPeer it is any state the add phase (addReservedPeers of the new peers,
+   run by the guard on the model) can end in and any peer that can come first among those to
+   remove.  C30_guard_exact below: whenever the guard holds the maximum really is exceeded. *)
 Theorem C30_slots_partial : forall mi mo ro h s,
   (mi < 4294967296)%N -> (mo < 4294967296)%N -> hist_wf h ->
   unguarded fixed (init_pset mi mo ro) h ->
@@ -73,6 +75,32 @@ Proof.
   split; [exact (Inv_limits s I1)|]. exact (proj1 (Inv_facts true s I1)).
 Qed.
 Print Assumptions C30_slots_partial.
+
+(* the guard is exact: in a reachable state of an unguarded history (so the limits hold), an
+   operation inside the guard has an outcome — a resolution of the map-iteration choices — that
+   returns normally with a counter above its maximum (maxima below 2^32 - 1, so that the uint32
+   counter cannot wrap to 0 instead) *)
+Theorem C30_guard_exact : forall mi mo ro h s k o,
+  (mi + 1 < 4294967296)%N -> (mo + 1 < 4294967296)%N -> hist_wf h ->
+  unguarded fixed (init_pset mi mo ro) h -> reachable fixed (init_pset mi mo ro) h s ->
+  guard_unreserve s k o = true ->
+  exists e s', In (Ret e s') (step fixed s k o) /\ limits_ok s' = false.
+Proof. exact guard_exact_reachable. Qed.
+Print Assumptions C30_guard_exact.
+
+(* non-vacuity of the setReservedPeer part of the guard: maxOut = 1; a is reserved, was banned and
+   dropped, and has a good reputation again (not connected: nothing re-runs allocSlots); b holds
+   the only outgoing slot.  setReservedPeer [] only un-reserves the unconnected a: not guarded, the
+   limits hold.  setReservedPeer [c] first reserves c, whose allocSlots connects a (no slot), then
+   un-reserves a: guarded, and numOut becomes 2 *)
+Example C30_guard_set_reserved_nonvacuous :
+  let h := [(0%N, OAddReserved [0%N]); (0%N, OAddPeer [1%N]); (0%N, OReport (-2147483648) [0%N]); (0%N, OReport 2147483647 [0%N])] in
+  exists s, first_outcomes fixed (init_pset 1 1 false) h = Some s /\
+            guard_unreserve s 0 (OSetReserved []) = false /\
+            guard_unreserve s 0 (OSetReserved [2%N]) = true /\
+            existsb (fun r => match r with Ret None s' => (num_out s' =? 2)%N | _ => false end)
+                    (step fixed s 0 (OSetReserved [2%N])) = true.
+Proof. eexists. split; [vm_compute; reflexivity|]. repeat split; vm_compute; reflexivity. Qed.
 
 (* inside the guard the maxima can indeed be exceeded (repaired code included): the finding *)
 Theorem C30_limits_refuted :
@@ -116,6 +144,17 @@ Example C30_decay_order_nonvacuous :
   for_each [0%N; 1%N; 2%N] tick_peer s =
     [Ret Next (mkPS [(1%N, mkNode Ingoing 98 false); (2%N, mkNode NotConnected (-1960) false)] 1 0 2 2 [] Unlocked [] false 0 [])].
 Proof. split; vm_compute; reflexivity. Qed.
+
+(* Map-iteration order inside allocSlots.  The Go code ranges over the map ps.reservedNode; the
+   model enumerates the orders in reduced form (Model.alloc_orders: the not-connected reserved
+   peers, cut after the first one below the ban threshold).  From every state with the lock free,
+   the loop over ANY duplicate-free permutation of the reserved set returns exactly the result list
+   of the loop over one of the enumerated orders: the enumeration loses no behaviour. *)
+Theorem C30_alloc_orders_complete : forall s pi,
+  lk s = Unlocked -> NoDup pi -> Permutation pi (reserved s) ->
+  exists o, In o (alloc_orders s) /\ for_each pi reserved_body s = for_each o reserved_body s.
+Proof. exact alloc_orders_complete. Qed.
+Print Assumptions C30_alloc_orders_complete.
 
 (* The sortedPeers action.  allocSlots uses only the length of its answer (mirrored in Model.v);
    the answer itself is specified by ModelSpec.sorted_ok — exactly the connected peers, each once,
